@@ -126,22 +126,26 @@ def strategies(tier):
         """0..8 body segments of one set"""
         segs = []
         n = draw(st.integers(0, 8))
+        hl_heavy = draw(st.integers(0, 3)) == 0
+        if hl_heavy:
+            n = draw(st.integers(4, 14))     # deep HL trees with multi-level returns
         hl = 0
         path = []      # current root-to-previous path of HL numbers
         closed = []    # HL numbers no longer on the path
         lxn = 0
         while len(segs) < n:
-            k = draw(st.sampled_from(['HL', 'HL', 'REF', 'CLM', 'LX', 'NM1']))
+            k = 'HL' if hl_heavy and draw(st.integers(0, 5)) > 0 else draw(st.sampled_from(['HL', 'HL', 'REF', 'CLM', 'LX', 'NM1']))
             if k == 'HL':
                 hl += 1
                 h01 = str(hl)
-                if path and draw(st.integers(0, 3)) > 0:
-                    parent = draw(st.sampled_from(path))
+                if path and draw(st.integers(0, 3 if not hl_heavy else 9)) > 0:
+                    # any node of the current path: often the deepest (tree grows), sometimes far up (multi-level return)
+                    parent = path[-1] if draw(st.integers(0, 2)) > 0 else draw(st.sampled_from(path))
                     h02 = str(parent)
                 else:
                     parent = None
                     h02 = ''
-                p = draw(st.integers(0, 11))
+                p = draw(st.integers(0, 11 if not hl_heavy else 7))
                 if p == 0:
                     h01 = draw(st.sampled_from([str(hl + 1), str(hl - 1), '0', 'X', '', '01']))
                     if h01 != str(hl) and envmodel.toint(h01) != hl:
